@@ -73,10 +73,12 @@ type realPat struct {
 // parsePatternVariant fails ("should never occur"), so a defect that lets an unparsable variant
 // through would spin forever. A hang is reported as a difference (hang = true); after 3 hangs no
 // further pattern is enumerated (the spinning goroutines cannot be stopped).
-var hangs int32
+var hangs, enumSkipped int32
 
 func enumerate(p *patterns.PathPattern) (variants []patterns.PatternVariant, idxOK bool, hang bool) {
 	if atomic.LoadInt32(&hangs) >= 3 {
+		// not enumerated any more: reported as one "hang" record with skipped = true by the callers' stats
+		atomic.AddInt32(&enumSkipped, 1)
 		return nil, true, true
 	}
 	type res struct {
@@ -353,7 +355,9 @@ func TestVerifC37Table(t *testing.T) {
 			nacc++
 			nvariants += r.calls
 			if r.hang {
-				report("hang", map[string]interface{}{"p": s})
+				if atomic.LoadInt32(&enumSkipped) == 0 {
+					report("hang", map[string]interface{}{"p": s})
+				}
 				continue
 			}
 			if r.n != r.calls || r.n != row.N || r.calls > 1000 || !r.idxOK {
@@ -563,8 +567,10 @@ func TestVerifC37Valid(t *testing.T) {
 				// an accepted pattern can be enumerated: count law on the real outputs
 				vs, idxOK, hang := enumerate(p)
 				if hang {
-					bad++
-					em.emit(map[string]interface{}{"kind": "hang", "p": s})
+					if atomic.LoadInt32(&enumSkipped) == 0 {
+						bad++
+						em.emit(map[string]interface{}{"kind": "hang", "p": s})
+					}
 				} else if len(vs) != p.NumVariants() || len(vs) > 1000 || !idxOK {
 					bad++
 					em.emit(map[string]interface{}{"kind": "count", "p": s, "n": p.NumVariants(), "calls": len(vs), "ref_n": -1, "idx_ok": idxOK})
